@@ -22,6 +22,8 @@ pub struct Avoid {
     pub multi_directive: bool,
     /// optional call `?.()` whose callee is a member of an inner part of the same optional chain (`a?.m().p?.()`)
     pub opt_call_paren_callee: bool,
+    /// `super[key()] += s` inside the arguments of `super(..)` (always throws; see the known finding)
+    pub super_key_before_super_call: bool,
     /// with the plus operator disabled: a bare `+` expression as operand of an instrumented call / template
     pub plain_sum_operand: bool,
     /// `X.prototype.m.call(..)` where X.prototype.m does not exist
@@ -126,6 +128,9 @@ pub struct Gen<'t, 'a> {
 const STRINGS: &[&str] = &[
     "'s'", "\"a literal longer than ten\"", "''", "'h\\u00e9llo w\\u00f6rld'", "\"two\\nlines\"", "'caf\u{e9} \u{1F600}'", "\"it's\"", "'0'",
     "'another quite long literal'",
+    // text that the printer must keep escaped: a backslash before `uD83D` next to a non-ASCII character, a backquote and
+    // `${` (both end up inside template literals as literal substitutions), escapes that cannot be printed raw
+    "'[\u{e9}\\\\uD83D\\\\uDE00]'", "'`'", "'${'", "'\\u{1F600}\\x41\\0'", "\"\u{20ac}\\\\\"",
 ];
 const NUMS: &[&str] = &["1", "0", "2", "10", "1.5", "0x10", "1e3"];
 const OTHER_LITS: &[&str] = &["null", "true", "false", "1n", "/re/g", "/a+b/", "undefined"];
@@ -430,6 +435,13 @@ impl<'t, 'a> Gen<'t, 'a> {
                 E::New { callee: callee.bx(), args }
             }
             21 => {
+                if !self.o.exec && self.t.chance(50) {
+                    // a configured method that is NOT allowed without callee, called bare: never instrumented
+                    self.tag("bare-call-not-allowed");
+                    let n = self.method_name();
+                    let args = self.args(d1);
+                    return E::Call { callee: E::Id(n).bx(), args, optional: false };
+                }
                 if self.o.bare.is_empty() {
                     return self.leaf();
                 }
@@ -521,7 +533,7 @@ impl<'t, 'a> Gen<'t, 'a> {
     }
 
     fn quasi(&mut self) -> String {
-        self.t.pick(&["", "q", " w ", "caf\u{e9} ", "\\n", "line1\nline2 ", "$", "\\u00e9", "{}"]).to_string()
+        self.t.pick(&["", "q", " w ", "caf\u{e9} ", "\\n", "line1\nline2 ", "$", "\\u00e9", "{}", "\u{20ac}\\x24{n}", "\u{ab}\\x60", "\\x5c\u{e9}", "\\`", "\\${", "\u{e9}\\\\"]).to_string()
     }
 
     fn template(&mut self, d: usize) -> E {
@@ -1260,6 +1272,11 @@ impl<'t, 'a> Gen<'t, 'a> {
             }
             10 => {
                 let e = self.expr(d);
+                if !self.o.exec && self.t.chance(20) {
+                    // `import(<specifier expression>)`: its callee is not an expression
+                    self.tag("dynamic-import");
+                    return format!("import({});", Self::arg_text(&e));
+                }
                 Self::expr_stmt_text(&e)
             }
             11 => self.nested_function(d, sd),
@@ -1329,6 +1346,8 @@ impl<'t, 'a> Gen<'t, 'a> {
             20 => {
                 if self.t.chance(100) {
                     self.sibling_arrows(d)
+                } else if self.t.chance(90) {
+                    self.reentrant_member(d)
                 } else {
                     self.recursion(d)
                 }
@@ -1531,6 +1550,7 @@ impl<'t, 'a> Gen<'t, 'a> {
         self.tag("param-default");
         let mut sc = self.sc().clone();
         sc.in_arrow_default = true; // forbids await / yield
+        sc.super_ok = false; // the default belongs to a (non-arrow) nested function
         self.scopes.push(sc);
         let e = if self.o.avoid.instr_in_param_default {
             self.redirect("instr_in_param_default");
@@ -1614,6 +1634,48 @@ impl<'t, 'a> Gen<'t, 'a> {
             t.print(),
             Self::arg_text(&arg)
         )
+    }
+
+    /// A member with a body of its own that is not a `Function` node everywhere (accessor of an object literal, class
+    /// constructor, static block) and needs temporaries, invoked while an instrumented operation of the defining
+    /// function is half evaluated (an earlier operand already sits in a temporary).
+    fn reentrant_member(&mut self, d: usize) -> String {
+        self.tag("reentrant-member");
+        let ob = self.fresh("ob");
+        let cl = self.fresh("D");
+        let p = self.fresh("p");
+        let m1 = self.method_name();
+        let call = |g: &mut Self| {
+            let f = g.local_fn_or_h();
+            let a = g.ident();
+            E::Call { callee: f.bx(), args: vec![Arg { spread: false, e: a }], optional: false }
+        };
+        self.push_fn_scope(&[], false, false, false);
+        let (g1, g2) = (call(self), call(self));
+        let extra = self.expr(d.min(1));
+        self.scopes.pop();
+        self.push_fn_scope(&[p.clone()], false, false, false);
+        let (c1, c2) = (call(self), call(self));
+        self.scopes.pop();
+        let (o1, o2) = (call(self), call(self));
+        let t = self.assignable_ident();
+        let t2 = self.assignable_ident();
+        let decl = format!(
+            "const {ob} = {{ get gp() {{ return {} + {} + {}; }}, set sp(v) {{ this.k = v.{m1}({}, v); }} }};\nclass {cl} {{ constructor({p}) {{ this.p = `${{{}}}-${{{}}}`; }} static {{ {cl}.s = {} + 's'; }} }}",
+            g1.print(),
+            g2.print(),
+            E::Paren(extra.bx()).print(),
+            g1.print(),
+            c1.print(),
+            c2.print(),
+            o1.print()
+        );
+        let uses = match self.t.below(3) {
+            0 => format!("{} = {} + {ob}.gp + {};", t.print(), o1.print(), o2.print()),
+            1 => format!("{} = `${{{}}}${{new {cl}({}).p}}${{{ob}.gp}}`;", t.print(), o1.print(), o2.print()),
+            _ => format!("{} = {}.{m1}(({ob}.sp = {}), new {cl}({}).p, {cl}.s);", t.print(), o1.print(), o2.print(), self.ident().print()),
+        };
+        format!("{decl}\n{uses}\n{} = {ob}.k;", t2.print())
     }
 
     fn recursion(&mut self, d: usize) -> String {
@@ -1716,11 +1778,26 @@ impl<'t, 'a> Gen<'t, 'a> {
             members.push(format!("fld = {};", Self::arg_text(&e)));
             members.push(format!("static sfld = {};", Self::arg_text(&e2)));
         }
-        // constructor
+        // constructor; a derived class calls `super(<arguments>)` first (`K` is a global constructor of the realm)
+        let derived = self.t.chance(90);
         self.push_member_scope(&[p.clone()]);
         let ce = self.expr(d);
+        let sup = if derived {
+            self.tag("super-call");
+            if self.o.avoid.super_key_before_super_call {
+                // known finding: no `super.p` / `super[k]` inside the arguments of `super(..)`
+                self.redirect("super_key_before_super_call");
+                self.scopes.last_mut().unwrap().super_ok = false;
+            }
+            let a1 = self.expr(d);
+            let a2 = self.expr(d.min(2));
+            self.scopes.last_mut().unwrap().super_ok = true;
+            format!("super({}, {}); ", Self::arg_text(&a1), Self::arg_text(&a2))
+        } else {
+            String::new()
+        };
         self.scopes.pop();
-        members.push(format!("constructor({p}) {{ this.p = {}; }}", Self::arg_text(&ce)));
+        members.push(format!("constructor({p}) {{ {sup}this.p = {}; }}", Self::arg_text(&ce)));
         // method
         let mp = self.fresh("p");
         self.push_member_scope(&[mp.clone()]);
@@ -1783,7 +1860,8 @@ impl<'t, 'a> Gen<'t, 'a> {
             1 => format!("new {name}({}).gp", Self::arg_text(&a)),
             _ => format!("[new {name}({}).fld, {name}.sfld, {name}.sm && {name}.sm({})]", Self::arg_text(&a), Self::arg_text(&b)),
         };
-        format!("class {name} {{\n{}\n}}\n{} = {};", members.join("\n"), t.print(), usage)
+        let ext = if derived { " extends K" } else { "" };
+        format!("class {name}{ext} {{\n{}\n}}\n{} = {};", members.join("\n"), t.print(), usage)
     }
 
     // ---------------------------------------------------------------- program
@@ -1818,6 +1896,12 @@ impl<'t, 'a> Gen<'t, 'a> {
         // file level directive prologue
         let file_dir = self.directive(true);
         src.push_str(&file_dir);
+        // import declarations (never in executed programs: the module would have to be linked)
+        let imports = module && !self.o.exec && self.t.chance(120);
+        if imports {
+            self.tag("module-import");
+            src.push_str("import dflt1, { nm1 as nm2 } from './dep1.js';\n");
+        }
         // top-level code (outside any block: documented as not instrumented)
         if self.t.chance(100) {
             self.tag("top-level-code");
@@ -1878,6 +1962,11 @@ impl<'t, 'a> Gen<'t, 'a> {
         }
         if module && self.t.flag() {
             src.push_str("export default f;\n");
+        }
+        if imports && self.t.flag() {
+            // a late import: legal anywhere at the top level of a module
+            self.tag("module-late-import");
+            src.push_str("import * as ns3 from './dep3.js';\nexport { ns3 };\n");
         }
         if self.o.file_comment_url && self.t.flag() {
             src.push_str("//# sourceMappingURL=t.js.map\n");
